@@ -11,7 +11,7 @@ use crate::universe::*;
 fn equivalence(tier: Tier, st: &mut Stats) {
     let mut us = u_lex(tier);
     us.retain(|u| u.dict.user.is_some() && u.mapping.is_none());
-    let max_len = tier.pick(5, 6);
+    let max_len = tier.pick(4, 5);
     // richer user menus on top of the universe's own
     let extra_users: Vec<Vec<Row>> = vec![
         vec![row("a", 1, 1, 30, "user-homograph-of-a"), row("abcab", 1, 1, -300, "user-long"), row("b", 1, 1, 32767, "user-max"), row("c", 1, 1, -32768, "user-min")],
@@ -31,6 +31,13 @@ fn equivalence(tier: Tier, st: &mut Stats) {
             u.name.push_str(&format!("/extra-user{k}"));
         }
         let user_rows = u.dict.user.clone().unwrap();
+        for r in &user_rows {
+            for c in r.surface.chars() {
+                if !u.alphabet.contains(&c) && u.alphabet.len() < 7 {
+                    u.alphabet.push(c);
+                }
+            }
+        }
         // twin: system lexicon extended by the user rows (after the system rows)
         let mut twin = u.clone();
         twin.dict.user = None;
